@@ -26,6 +26,8 @@ git apply /tmp/seed/$id.patch || { echo "patch does not apply to /repo"; exit 2;
 cd /verif && ./check $prop > /tmp/seed/$id.check.txt 2>&1; rc=$?
 git -C /repo checkout -- .
 rm -f /repo/genshi/*.orig
+# the evidence file written by a run against a patched tree must never be committed
+git -C /verif checkout -- evidence/ 2>/dev/null
 viol=$(grep -c '^VIOLATION' /tmp/seed/$id.check.txt)
 echo "check $prop on patched /repo: exit $rc, VIOLATION lines $viol"
 grep -E '^(VIOLATION|FAILING INPUT|BROKEN)' /tmp/seed/$id.check.txt | cut -c1-300
